@@ -284,8 +284,8 @@ func arrayElems(al *ssa.Alloc) []ssa.Value {
 // orItem is one contribution to a flag byte built by |= under conditions.
 type orItem struct {
 	Mask int64
-	Cond *condDesc   // nil = unconditional
-	Alt  []orItem    // alternatives of a switch (each with its own Cond)
+	Cond *condDesc // nil = unconditional
+	Alt  []orItem  // alternatives of a switch (each with its own Cond)
 }
 
 func (o orItem) String() string {
@@ -311,8 +311,26 @@ func (cc *chainCtx) decomposeOr(v ssa.Value) (int64, []orItem, bool) {
 		}
 	}
 	switch x := v.(type) {
+	case *ssa.Call:
+		// a helper returning flag bits: inline the decomposition of its (single) return value
+		if g := c.StaticCalleeOf(&x.Call); g != nil && g.Pkg == c.Pkg && g.Blocks != nil {
+			rets := returnsOf(g)
+			if len(rets) == 1 && len(rets[0].Results) == 1 {
+				return cc.decomposeOr(rets[0].Results[0])
+			}
+		}
 	case *ssa.BinOp:
 		if x.Op == token.OR {
+			if _, isCallY := stripConv(x.Y).(*ssa.Call); isCallY {
+				if _, isK := c.constByte(x.Y); !isK {
+					b1, its1, ok1 := cc.decomposeOr(x.X)
+					b2, its2, ok2 := cc.decomposeOr(stripConv(x.Y))
+					if ok1 && ok2 {
+						out := append(its1, orItem{Mask: b2})
+						return b1, append(out, its2...), true
+					}
+				}
+			}
 			if m, ok := c.constByte(x.Y); ok {
 				b, its, ok := cc.decomposeOr(x.X)
 				return b, append(its, orItem{Mask: m}), ok
